@@ -1033,6 +1033,13 @@ class Emitter:
         return self.ctl.cont(env)
 
     def e_if(self, e, env, k):
+        if e.cond.kind == "macro" and e.cond.name.split("::")[-1] == "cfg" and self.v.get("cfg_static"):
+            # `if cfg!(windows) { .. } else { .. }` with the predicate decided by the vocabulary (cfg_static): the
+            # code is translated for ONE configuration, only the branch that is compiled in is translated
+            key = "".join(t.text for t in e.cond.toks)
+            if key in self.v["cfg_static"]:
+                chosen = e.then if self.v["cfg_static"][key] else (e.els if e.els is not None else N("block", stmts=[], tail=None))
+                return self.expr(chosen, env, k)
         if e.cond.kind == "letcond":
             arms = [(e.cond.pat, None, e.then), (N("pwild"), None, e.els if e.els is not None else N("block", stmts=[], tail=None))]
             return self.e_match(N("match", scrut=e.cond.e, arms=arms), env, k)
@@ -1329,7 +1336,51 @@ class Emitter:
             raise EmitError("unknown constant %s" % "::".join(segs))
         return c[0]
 
+    def static_arms(self, e):
+        """`#[cfg(..)] Pat => ..`: with the vocabulary key cfg_static the arms that are compiled out are dropped
+        (an attribute cfg_static does not decide is an error); without it arm attributes are ignored, as before"""
+        aa = getattr(e, "arm_attrs", None)
+        if not aa or not any(aa) or not self.v.get("cfg_static"):
+            return e
+        arms = []
+        for arm, at in zip(e.arms, aa):
+            if any(a.replace(" ", "").startswith("#[cfg") for a in at):
+                cs = self.cfg_static(at)
+                if cs is None:
+                    raise EmitError("match arm under %s: not decided by the vocabulary (cfg_static)" % " ".join(at))
+                if cs is False:
+                    continue
+            arms.append(arm)
+        return N("match", scrut=e.scrut, arms=arms)
+
+    def arm_writeback(self, scr, p, binds, kk):
+        """optional vocabulary key `match_writeback`: `match &mut place { Enum::V(w) => .. }` binds `w` by
+        mutable reference INTO the place; when the arm body has assigned / mutated `w`, the place is rebuilt
+        from the constructor and the current values of the bound variables before the arm falls through"""
+        if not (self.v.get("match_writeback") and scr.kind == "unary" and scr.op == "&mut"):
+            return kk
+        while p.kind == "pref":
+            p = p.inner
+        if p.kind != "ptstruct" or not binds:
+            return kk
+        pv = self.payload_variant(p)
+        if pv is None or isinstance(pv[1], int) or len(binds) != len(p.elems):
+            return kk
+        ctor = pv[0]
+        orig = [(rn, cn) for rn, cn, _t, _m in binds]
+
+        def kk2(t, ty, benv):
+            cur = []
+            for rn, cn in orig:
+                v = benv.get(rn)
+                cur.append(v.coq if v is not None else cn)
+            if cur == [cn for _rn, cn in orig]:
+                return kk(t, ty, benv)
+            return self.write_place(scr.e, "(%s %s)" % (ctor, " ".join(cur)), benv, lambda env3: kk(t, ty, env3))
+        return kk2
+
     def e_match(self, e, env, k):
+        e = self.static_arms(e)
         scr = e.scrut
         comps = scr.elems if scr.kind == "tuple" else [scr]
 
@@ -1377,7 +1428,8 @@ class Emitter:
                         env2 = env1
                         for rn, cn, t, mut in binds:
                             env2 = env2.bind(rn, cn, t, mut)
-                        out.append("| %s =>\n%s" % (ps, ind(self.expr(body, env2, kk), 4)))
+                        kka = self.arm_writeback(scr, p, binds, kk) if len(comps) == 1 else kk
+                        out.append("| %s =>\n%s" % (ps, ind(self.expr(body, env2, kka), 4)))
                     out.append("end")
                     return "\n".join(out)
                 return self.join_branches(env1, k, build)
